@@ -157,7 +157,8 @@ Call(c) ==
              out |-> IF (c.tt # "none" /\ DTNew(DT(CivilFromDays(c.n), t)).kind # "ok") \/ ~InInstantRange(ns) THEN ErrRange ELSE Ok(ns)]
     [] c.k = "PlainDate.epochNsUtc" -> [op |-> "PlainDate.epochNsUtc", args |-> [recv |-> CivilFromDays(c.n)],
                                         out |-> IF c.n > MinDay THEN Ok(Mul(DayNsBig, FromInt(c.n))) ELSE ErrRange]
-    [] c.k = "Default.date" -> [op |-> c.k, args |-> [ty |-> c.ty], out |-> Ok([y |-> 1970, m |-> 1, d |-> 1, dim |-> 31])]
+    \* (a default value is a valid date: the epoch day - and for a month-day 01-01 with the reference year 1972 every ISO month-day carries, C18)
+    [] c.k = "Default.date" -> [op |-> c.k, args |-> [ty |-> c.ty], out |-> Ok([y |-> IF c.ty = "PlainMonthDay" THEN 1972 ELSE 1970, m |-> 1, d |-> 1, dim |-> 31])]
     [] c.k = "Prim.epochNs" -> [op |-> c.k, args |-> [src |-> c.src, v |-> c.v, frac |-> c.frac, special |-> c.special], out |-> EpochNsFrom(c.src, c.v, c.frac, c.special)]
     [] c.k \in {"Prim.truncated", "Prim.integral", "Prim.positive"} ->
          [op |-> c.k, args |-> [ty |-> c.ty, v |-> c.v, frac |-> c.frac],
